@@ -172,7 +172,7 @@ def is_pos(x):
     return isnum(x) and x == int(x)
 
 
-def arr_literal(M, sep_row=';'):
+def arr_literal(M):
     """nested list -> {a,b;c,d}; flat list -> {a,b,c}."""
     if M and isinstance(M[0], list):
         return '{' + ';'.join(','.join(lit(v) for v in row) for row in M) + '}'
@@ -486,8 +486,6 @@ class MatchExact(Sub):
             for n in range(1, MAXLEN[tier][pool] + 1):
                 for items in itertools.product(POOLS[pool], repeat=n):
                     for dl in FLAT_DL + NESTED_DL:
-                        if n > len(COLS) and dl.startswith('rng'):
-                            continue
                         yield [pool, list(items), dl]
 
     def one(self, env, pool, items, dl, xdl, x):
